@@ -1,4 +1,4 @@
-CONSTANTS SIZES = {1, 2, 3}  TMAX = 5  WMAX = 7  MAXE = 3  MAXW = 2  ITERS = 1  KEYS = {0}  BEFORE = FALSE
+CONSTANTS SIZES = {1, 2, 3}  TMAX = 4  WMAX = 6  MAXE = 3  MAXW = 1  ITERS = 1  KEYS = {0}  BEFORE = TRUE  FIX_F4 = TRUE
 SPECIFICATION Spec
-INVARIANTS TypeOK C13_All
+INVARIANTS TypeOK C13_All C06_Late EmitReplay
 CHECK_DEADLOCK FALSE
